@@ -119,7 +119,8 @@ Case generate() {
                                          {1, K_ADAPTOR},
                                          {6, K_MORPH_READGRAPH},
                                          {3, K_INOUT_OTHER},
-                                         {3, K_HYPER}});
+                                         {3, K_HYPER},
+                                         {3, K_LCMORPH_API}});
   c[F_KIND]    = kind;
   c[F_ETYPE]   = *uni(0, (int)ET_COUNT);
   c[F_OPTS]    = *uni(0, 64);
@@ -418,6 +419,7 @@ void run(const Case& c0) {
     break;
   case K_LCMORPH_READGRAPH:
   case K_LCMORPH_AUX:
+  case K_LCMORPH_API:
   case K_MORPH_READGRAPH:
     run_morph(x);
     break;
